@@ -96,6 +96,73 @@ var ruleQueryDiscipline = &core.Rule{ID: "R10.4", Min: 8,
 		// A: matcher shape
 		rs := fde.FindRangeOver2(matcher, matcher.Params[qsIdx])
 		okA, whyA := false, "the matcher does not range over every query from the first"
+		// library form: return slices.IndexFunc(queries, func(q) bool { return equal(q.path, path) }): the index of
+		// the first query the callback accepts, or -1 (contract of the library function)
+		if len(rs) == 0 && len(matcher.Blocks) == 1 {
+			if rets := core.Returns(matcher); len(rets) == 1 {
+				if ic, ok := rets[0].Results[0].(*ssa.Call); ok && isStdGeneric(&ic.Call, "slices.IndexFunc") && ic.Call.Args[0] == ssa.Value(matcher.Params[qsIdx]) {
+					if mc, ok := ic.Call.Args[1].(*ssa.MakeClosure); ok {
+						cb, _ := mc.Fn.(*ssa.Function)
+						whyA = "the callback of the library search is not the equality of the query's path with the current path"
+						if cb != nil && len(cb.Blocks) == 1 && len(cb.Params) == 1 {
+							if cr := core.Returns(cb); len(cr) == 1 {
+								if call, ok := cr[0].Results[0].(*ssa.Call); ok && (len(call.Call.Args) == 2 || isSlicesEqualFuncBytes(call)) {
+									// arg0: the path field of the callback's parameter (spilled to a local); arg1: the captured current path
+									pf := -1
+									if base, fld, ok := core.LoadOfField(call.Call.Args[0]); ok {
+										if al, isAl := base.(*ssa.Alloc); isAl {
+											if st := onlyStore(al); st != nil && st.Val == ssa.Value(cb.Params[0]) {
+												pf = fld
+											}
+										}
+									}
+									if fv, isF := call.Call.Args[0].(*ssa.Field); isF && fv.X == ssa.Value(cb.Params[0]) {
+										pf = fv.Field
+									}
+									capturedPath := false
+									if ld, isLd := call.Call.Args[1].(*ssa.UnOp); isLd && ld.Op == token.MUL {
+										if fv, isFV := ld.X.(*ssa.FreeVar); isFV {
+											for i, x := range cb.FreeVars {
+												if x == fv && i < len(mc.Bindings) {
+													if cell, isAl := mc.Bindings[i].(*ssa.Alloc); isAl {
+														if st := onlyStore(cell); st != nil && isPath(st.Val) {
+															capturedPath = true
+														}
+													}
+												}
+											}
+										}
+									}
+									wantF := -1
+									if st, ok := matcher.Params[qsIdx].Type().Underlying().(*types.Slice); ok {
+										if str, ok := st.Elem().Underlying().(*types.Struct); ok {
+											for i := 0; i < str.NumFields(); i++ {
+												if sl, ok := str.Field(i).Type().Underlying().(*types.Slice); ok {
+													if _, ok := sl.Elem().Underlying().(*types.Slice); ok && wantF < 0 {
+														wantF = i // the first [][]byte field: the path (the accepted values come second)
+													}
+												}
+											}
+										}
+									}
+									if pf >= 0 && pf == wantF && capturedPath {
+										okA = true
+										if eq := call.Call.StaticCallee(); eq != nil && core.InMod(eq) {
+											okB, whyB := pathEqShape(eq)
+											s.Check(okB, eq.Name()+": full path equality", c.Pos(eq.Pos()), "same length and every segment bytes.Equal", whyB)
+										} else if isSlicesEqualFuncBytes(call) {
+											s.OK("path equality: slices.EqualFunc with bytes.Equal", c.Pos(call.Pos()), "same length and every segment bytes.Equal (library contract)")
+										} else {
+											s.Bad("path equality helper", c.Pos(call.Pos()), "path comparison is not a module function that can be inspected")
+										}
+									}
+								}
+							}
+						}
+					}
+				}
+			}
+		}
 		if len(rs) == 1 {
 			r := rs[0]
 			iff := core.IfOf(r.Body)
@@ -792,4 +859,22 @@ func judgePredicate(h *ssa.Function, qIdx, rawIdx int) (bool, string) {
 	}
 	_ = qIdx
 	return true, ""
+}
+
+// onlyStore: the single store into the local a (nil when there are none or several, or a's address escapes).
+func onlyStore(a *ssa.Alloc) *ssa.Store {
+	var st *ssa.Store
+	for _, ref := range *a.Referrers() {
+		switch x := ref.(type) {
+		case *ssa.Store:
+			if x.Addr != ssa.Value(a) || st != nil {
+				return nil
+			}
+			st = x
+		case *ssa.UnOp, *ssa.FieldAddr, *ssa.IndexAddr, *ssa.MakeClosure, *ssa.DebugRef:
+		default:
+			return nil
+		}
+	}
+	return st
 }
